@@ -236,10 +236,49 @@ def _load_extra_families():
     return fams
 
 
+# ----------------------------------------------------------------------------- per-rule fired counts (inventory obligation)
+FIRED = {}          # rule signature -> number of successful try_rewrite calls during this run, all families together
+
+
+def rule_sig(rule):
+    """Identity of a rule that survives re-instantiation (factories, .commute() clones): (name, target pattern text with the
+    run-specific ids of anonymous pattern values removed)."""
+    import re
+    return (getattr(rule, "name", None), re.sub(r"anonymous:\d+", "anonymous", str(rule._target_pattern)))
+
+
+def install_fired_counter():
+    """Observation hook: counts, per rule signature, the calls of RewriteRule.try_rewrite that returned a replacement.
+    The wrapped method's arguments and result are passed through unchanged."""
+    from onnxscript.rewriter import _rewrite_rule as rr
+    if getattr(rr.RewriteRule.try_rewrite, "_c05_counter", False):
+        return
+    orig = rr.RewriteRule.try_rewrite
+
+    def try_rewrite(self, *args, **kwargs):
+        res = orig(self, *args, **kwargs)
+        if res is not None:
+            try:
+                k = rule_sig(self)
+                FIRED[k] = FIRED.get(k, 0) + 1
+            except Exception:  # noqa: BLE001  (never disturb the implementation under test)
+                pass
+        return res
+    try_rewrite._c05_counter = True
+    rr.RewriteRule.try_rewrite = try_rewrite
+
+
+def regenerate(ctx):
+    """translator: the table of matched constants with their tolerances (coq/Gen/C05Consts.v), see c05_consts_py2v.py"""
+    from harness import c05_consts_py2v
+    ctx.c05_consts = c05_consts_py2v.regenerate(ctx)
+
+
 def run(ctx):
     ctx.assume("float tensors are exercised on exactly representable values; NaN ordering and rounding are outside the Coq model (DESIGN 3.1)")
     ctx.assume("ONNX Clip/Relu/Min/Max kernel semantics: operator documents; measured on onnx.reference and onnxruntime for every instance")
     ctx.check_props()
+    install_fired_counter()
     for fam in FAMILIES + _load_extra_families():
         fam(ctx)
     ctx.cover(rule="per rule family: grid/random instances of the rule's parameter space (bounds incl. None, negative, inverted; dtypes; "
